@@ -3,8 +3,7 @@ from . import register
 register("T00",  # infrastructure self-test, not a property of properties.jsonl
          lean_modules=["GtModel.Model.Range"], theorems=[], streams=["range"])
 
-for _p in ("C01", "C02", "C03", "C08", "C10"):
-    register(_p, lean_modules=[], theorems=[], streams=["script"] + (["scriptx"] if _p in ("C01", "C02", "C03") else []))
+# C01, C02, C03, C08, C10: see c01.py ... c10.py
 
 register("C20", lean_modules=["GtModel.Props.C20"], gen=lambda: __import__("harness.gentables", fromlist=["x"]).gen_cli_tables(),
          streams=["faults"],
